@@ -36,6 +36,10 @@ pub struct World {
     /// Run whose future is being polled (tags hook events).
     pub cur_run: usize,
     pub hooks_on: bool,
+    /// (run, f) -> ok: user futures that are ready on their first poll
+    pub presync: BTreeMap<(usize, usize), bool>,
+    /// (run, f) -> sender: synchronous functions that interrupt the run as they return
+    pub presync_sig: BTreeMap<(usize, usize), tokio::sync::mpsc::Sender<interruptible::InterruptSignal>>,
 }
 
 pub type W = Rc<RefCell<World>>;
@@ -79,6 +83,10 @@ impl World {
             .collect()
     }
 
+    pub fn ended_count(&self, run: usize) -> usize {
+        self.gates.iter().filter(|((r, _), g)| *r == run && g.ended).count()
+    }
+
     /// In flight and not yet told to complete.
     pub fn openable(&self, run: usize) -> Vec<usize> {
         self.gates
@@ -107,6 +115,13 @@ pub fn gate_start(w: &W, run: usize, f: usize) -> GateFut {
             dup
         };
         let _ = dup;
+        if let Some(&ok) = world.presync.get(&(run, f)) {
+            let tx = world.presync_sig.get(&(run, f)).cloned();
+            let g = world.gates.get_mut(&(run, f)).expect("gate");
+            g.open = true;
+            g.ok = ok;
+            g.sig_tx = tx;
+        }
     }
     GateFut {
         w: w.clone(),
